@@ -65,6 +65,16 @@ def gen_cases(tier, seed):
         if spin and any(':' in s for s in tg) and not all(':' in s for s in tg):
             continue   # target_spin can not express mixed spin / no spin
         order = list(tg)
+        declared = False
+        if r.random() < 0.15:
+            # an index that occurs on two (or more) objects is requested as a
+            # target index (only possible with explicitly given targets)
+            cnt_ = ir.term_indices(t)
+            multi = [s_ for s_, n_ in cnt_.items() if n_ >= 2 and s_ not in tg]
+            if multi and not (spin and any(':' in s_ for s_ in tg + multi)
+                              and not all(':' in s_ for s_ in tg + multi)):
+                order = order + r.sample(multi, r.randint(1, min(2, len(multi))))
+                declared = True
         r.shuffle(order)
         kw = {}
         if r.random() < 0.35:
@@ -82,7 +92,8 @@ def gen_cases(tier, seed):
                 pre = []
         cases.append({'id': f'C16-{tier[0]}{seed}-{k:05d}', 'term': t,
                       'pre_order': pre,
-                      'order': order, 'give_targets': r.random() < 0.8,
+                      'order': order,
+                      'give_targets': declared or r.random() < 0.8,
                       'kw': kw, 'spin': spin, 'mseed': r.randrange(1 << 30),
                       'dims': [4, 4] if spin else list(r.choice([(2, 2), (2, 3),
                                                                  (3, 2)]))})
